@@ -1,4 +1,5 @@
 (* C11 — API diff: silent on compatible change, reports every public removal / re-kinding.  Property theorems only.
+   (Model of the code after the repairs of findings C11-F1, F2, F3: no known-gap hypothesis is left.)
    Stores are arbitrary graphs of objects (modules, classes, functions, attributes, aliases with resolved / unresolvable /
    cyclic targets); fbc is the model of find_breaking_changes with its seen_paths guard; breakages l is what it reports. *)
 From Coq Require Import List Arith Bool String.
@@ -53,81 +54,66 @@ Theorem C11_private_never_reported : forall go gn fuel ri rj s l b,
 Proof. exact private_never_reported. Qed.
 Print Assumptions C11_private_never_reported.
 
-(* completeness, for a consistent old->new counterpart map cp (the decidable known-gap predicate of finding C11-F2 is its
-   negation): removing a public member of the root or of a reached container is reported ... *)
-Theorem C11_public_removal_reported : forall go gn cp ri rj fuel s l,
-  fbc go gn fuel ri rj = Ok s l -> consistent go gn cp = true -> cp_get cp ri = Some rj ->
-  forall c j oi nj n m mo, Scanned go gn cp ri rj c j -> get go c = Some oi -> get gn j = Some nj ->
+(* completeness: removing a public member of the root or of a visited container is reported ... *)
+Theorem C11_public_removal_reported : forall go gn ri rj fuel s l,
+  fbc go gn fuel ri rj = Ok s l ->
+  forall c j oi nj n m mo, Scanned go gn ri rj c j -> get go c = Some oi -> get gn j = Some nj ->
   In (n, m) (all_members oi) -> get go m = Some mo -> is_public oi mo = true -> lookup n (all_members nj) = None ->
   In (BRemoved m) (breakages go gn l).
 Proof. exact public_removal_reported. Qed.
 Print Assumptions C11_public_removal_reported.
 
-(* ... a reached object whose counterpart has another kind is reported ... *)
-Theorem C11_rekinding_reported : forall go gn cp ri rj fuel s l,
-  fbc go gn fuel ri rj = Ok s l -> consistent go gn cp = true -> cp_get cp ri = Some rj ->
-  forall c j oi nj, Reach go gn cp ri rj c -> cp_get cp c = Some j -> get go c = Some oi -> get gn j = Some nj ->
+(* ... a visited pair of objects of different kinds is reported (Visit: reached from the roots through public members of
+   same-kind containers and through resolvable alias targets -- also through re-exports and inherited members) ... *)
+Theorem C11_rekinding_reported : forall go gn ri rj fuel s l,
+  fbc go gn fuel ri rj = Ok s l ->
+  forall c j oi nj, Visit go gn ri rj c j -> get go c = Some oi -> get gn j = Some nj ->
   is_alias oi = false -> is_alias nj = false -> kind_of oi <> kind_of nj ->
   In (BKind j) (breakages go gn l).
 Proof. exact rekinding_reported. Qed.
 Print Assumptions C11_rekinding_reported.
 
-(* ... a reached class that lost a base is reported ... *)
-Theorem C11_base_removed_reported : forall go gn cp ri rj fuel s l,
-  fbc go gn fuel ri rj = Ok s l -> consistent go gn cp = true -> cp_get cp ri = Some rj ->
+(* ... a visited class that lost a base is reported ... *)
+Theorem C11_base_removed_reported : forall go gn ri rj fuel s l,
+  fbc go gn fuel ri rj = Ok s l ->
   forall c j oi nj im ob inh ms im' nb inh' ms',
-  Reach go gn cp ri rj c -> cp_get cp c = Some j -> get go c = Some oi -> get gn j = Some nj ->
+  Visit go gn ri rj c j -> get go c = Some oi -> get gn j = Some nj ->
   nbody oi = BClass im ob inh ms -> nbody nj = BClass im' nb inh' ms' -> List.length nb < List.length ob ->
   In (BBase j) (breakages go gn l).
 Proof. exact base_removed_reported. Qed.
 Print Assumptions C11_base_removed_reported.
 
-(* ... a reached attribute whose value changed is reported ... *)
-Theorem C11_value_changed_reported : forall go gn cp ri rj fuel s l,
-  fbc go gn fuel ri rj = Ok s l -> consistent go gn cp = true -> cp_get cp ri = Some rj ->
-  forall c j oi nj ov nv, Reach go gn cp ri rj c -> cp_get cp c = Some j -> get go c = Some oi -> get gn j = Some nj ->
+(* ... a visited attribute whose value changed is reported ... *)
+Theorem C11_value_changed_reported : forall go gn ri rj fuel s l,
+  fbc go gn fuel ri rj = Ok s l ->
+  forall c j oi nj ov nv, Visit go gn ri rj c j -> get go c = Some oi -> get gn j = Some nj ->
   nbody oi = BAttribute ov -> nbody nj = BAttribute nv -> ov <> nv ->
   In (BValue j) (breakages go gn l).
 Proof. exact value_changed_reported. Qed.
 Print Assumptions C11_value_changed_reported.
 
-(* ... and so is every parameter breakage C10's fdiff finds on a reached function *)
-Theorem C11_parameter_breakage_reported : forall go gn cp ri rj fuel s l,
-  fbc go gn fuel ri rj = Ok s l -> consistent go gn cp = true -> cp_get cp ri = Some rj ->
-  forall c j oi nj os oret ns nret p, Reach go gn cp ri rj c -> cp_get cp c = Some j -> get go c = Some oi -> get gn j = Some nj ->
+(* ... and so is every parameter breakage C10's fdiff finds on a visited function pair *)
+Theorem C11_parameter_breakage_reported : forall go gn ri rj fuel s l,
+  fbc go gn fuel ri rj = Ok s l ->
+  forall c j oi nj os oret ns nret p, Visit go gn ri rj c j -> get go c = Some oi -> get gn j = Some nj ->
   nbody oi = BFunction os oret -> nbody nj = BFunction ns nret -> In p (fdiff os ns) ->
   In (BParam j p) (breakages go gn l).
 Proof. exact parameter_breakage_reported. Qed.
 Print Assumptions C11_parameter_breakage_reported.
 
-(* without the consistency hypothesis the statement is false of the faithful model (finding C11-F2: seen_paths remembers
-   old paths only, so a public re-export that now points elsewhere is not compared once its old target has been) *)
-Theorem C11_public_change_reported_refuted_F2 :
-  exists go gn ri rj fuel s l i j b,
-    wf_store go = true /\ wf_store gn = true /\ fbc go gn fuel ri rj = Ok s l /\
-    PubReach go gn ri rj i j /\ In b (local go gn (EHead i j)) /\ ~ In b (breakages go gn l).
-Proof. exact public_change_reported_refuted_F2. Qed.
-Print Assumptions C11_public_change_reported_refuted_F2.
+(* every pair that must be visited is examined exactly as the code examines it (the log is what breakages are computed from) *)
+Theorem C11_visited_pairs_examined : forall go gn ri rj fuel s l,
+  fbc go gn fuel ri rj = Ok s l -> forall i j, Visit go gn ri rj i j -> In (EHead i j) l.
+Proof. exact visit_logged. Qed.
+Print Assumptions C11_visited_pairs_examined.
 
-(* unresolvable re-exports are skipped, never raised: only a cyclic target can abort the comparison *)
-Theorem C11_unresolvable_skipped_not_raised : forall go gn, no_cyclic go = true -> no_cyclic gn = true ->
-  forall fuel ri rj, fbc go gn fuel ri rj <> ErrCyclic.
-Proof. exact unresolvable_never_raises. Qed.
-Print Assumptions C11_unresolvable_skipped_not_raised.
-
-(* termination via seen_paths: on well-formed stores without cyclic targets the comparison completes with
-   fuel = number of old objects + 1 (the fuel the extracted model passes) *)
-Theorem C11_terminates : forall go gn, wf_store go = true -> wf_store gn = true -> no_cyclic go = true -> no_cyclic gn = true ->
-  forall fuel ri rj, ri < List.length go -> rj < List.length gn -> List.length go < fuel ->
+(* unresolvable and cyclic re-exports are skipped, never raised, and the seen_paths guard makes the comparison terminate:
+   on well-formed stores -- whatever the alias targets -- it completes with fuel = |old| * |new| + 1 (what the extracted model passes) *)
+Theorem C11_terminates_never_raises : forall go gn, wf_store go = true -> wf_store gn = true ->
+  forall fuel ri rj, ri < List.length go -> rj < List.length gn -> List.length go * List.length gn < fuel ->
   exists s l, fbc go gn fuel ri rj = Ok s l.
 Proof. exact fbc_total. Qed.
-Print Assumptions C11_terminates.
-
-(* "cyclic re-exports are skipped instead of aborting" is false of the faithful model (finding C11-F1) *)
-Theorem C11_cyclic_aborts_refuted :
-  exists g r, wf_store g = true /\ fbc g g (default_fuel g) r r = ErrCyclic /\ check_exit g g (fbc g g (default_fuel g) r r) <> 0.
-Proof. exact cyclic_aborts_refuted. Qed.
-Print Assumptions C11_cyclic_aborts_refuted.
+Print Assumptions C11_terminates_never_raises.
 
 (* the command-line check exits 0 exactly when the comparison completed and reported nothing *)
 Theorem C11_exit_code_iff : forall go gn r,
@@ -135,10 +121,7 @@ Theorem C11_exit_code_iff : forall go gn r,
 Proof. exact exit_code_iff. Qed.
 Print Assumptions C11_exit_code_iff.
 
-(* is_public is its documented ladder except under an empty __all__ (finding C11-F3) *)
-Theorem C11_is_public_matches_doc_modulo_F3 : forall p m, empty_all p = false -> is_public p m = is_public_doc p m.
-Proof. exact is_public_matches_doc_modulo_F3. Qed.
-Print Assumptions C11_is_public_matches_doc_modulo_F3.
-Theorem C11_is_public_doc_refuted_F3 : exists p m, is_public p m = true /\ is_public_doc p m = false.
-Proof. exact is_public_doc_refuted_F3. Qed.
-Print Assumptions C11_is_public_doc_refuted_F3.
+(* is_public is the ladder its docstring words, rule by rule (an empty __all__ included) *)
+Theorem C11_is_public_matches_doc : forall p m, is_public p m = is_public_doc p m.
+Proof. exact is_public_matches_doc. Qed.
+Print Assumptions C11_is_public_matches_doc.
